@@ -231,9 +231,16 @@ fn model_space(tier: Tier) -> Vec<ModelCfg> {
     let conv_a = LayerCfg::Conv { count: 2, depth: 1, fr: 2, fc: 2, sr: 1, sc: 1, act: Act::Sigmoid };
     let conv_b = LayerCfg::Conv { count: 1, depth: 2, fr: 1, fc: 2, sr: 2, sc: 1, act: Act::None };
     let conv_c = LayerCfg::Conv { count: 2, depth: 2, fr: 2, fc: 1, sr: 1, sc: 2, act: Act::Relu };
+    // a later layer whose filter covers its whole input map (one window), and a 1x1 layer after a
+    // layer whose filter covers the whole image
+    let conv_whole = LayerCfg::Conv { count: 2, depth: 2, fr: 2, fc: 3, sr: 1, sc: 1, act: Act::None };
+    let conv_img = LayerCfg::Conv { count: 2, depth: 1, fr: 3, fc: 3, sr: 1, sc: 1, act: Act::Sigmoid };
+    let conv_1x1 = LayerCfg::Conv { count: 1, depth: 2, fr: 1, fc: 1, sr: 1, sc: 1, act: Act::None };
     for (layers, inputs) in [
         (vec![conv_a.clone(), conv_b.clone()], vec![vec![1, 4, 4], vec![2, 1, 4, 4], vec![3, 1, 4, 4]]),
         (vec![conv_a.clone(), conv_c.clone()], vec![vec![1, 4, 5], vec![2, 1, 4, 5]]),
+        (vec![conv_a.clone(), conv_whole.clone()], vec![vec![1, 3, 4], vec![2, 1, 3, 4]]),
+        (vec![conv_img.clone(), conv_1x1.clone()], vec![vec![1, 3, 3], vec![2, 1, 3, 3]]),
     ] {
         for salt in [7u64, 2007] {
             out.push(ModelCfg { layers: layers.clone(), cost: CostK::Mse, lr: 0.25, salt, inputs: inputs.clone() });
